@@ -74,6 +74,7 @@ PROPS = {
             {"name": "c05_shuffle", "quick": 800, "thorough": 40000, "offset": 5, "chunk": 25, "prss_reuse_only": True, "run_timeout": 120},
             {"name": "c07_ba", "quick": 400, "thorough": 20000, "offset": 6, "chunk": 40, "prss_reuse_only": True, "run_timeout": 120},
             {"name": "c07_conv", "quick": 32, "thorough": 1000, "offset": 7, "chunk": 2, "prss_reuse_only": True, "run_timeout": 300},
+            {"name": "c07_agg", "quick": 500, "thorough": 20000, "offset": 10, "chunk": 50, "prss_reuse_only": True, "run_timeout": 120},
             {"name": "c01_deep", "quick": 8, "thorough": 200, "offset": 8, "chunk": 1, "prss_reuse_only": True, "run_timeout": 900, "max_workers": 12, "det_seeds": 1},
             {"name": "c01_hybrid", "quick": 16, "thorough": 600, "offset": 9, "chunk": 2, "prss_reuse_only": True, "run_timeout": 900, "max_workers": 12, "det_seeds": 1},
         ],
@@ -82,19 +83,21 @@ PROPS = {
     },
     "C07": {
         "level": "exploration",
-        "rule": "run = seeded Boolean circuit (and/or/xor/add with carry/sat_add/sub/gt/geq) x vector width {1,16,32,256} x operand widths 1..120 incl. unequal widths x semi-honest/DZKP-malicious x "
+        "rule": "run = seeded Boolean circuit (and/or/xor/add with carry/sat_add/sub/gt/geq) x vector width {1,16,32,256} (plus 3 and 8, which exist in the semi-honest mode only) x operand widths 1..120 incl. unequal widths x semi-honest/DZKP-malicious x "
                 "batched/single validation; one third of the runs enumerate ALL operand pairs of a width <= 4 across records and lanes, the rest use boundary {0,1,max,max-1,2^k,2^k-1} and random operands; "
                 "every run executes under a seeded schedule policy and seeded gateway knobs; non-trivial iff >=1 multi-choice decision; distinct by (shape, schedule digest). "
                 "c07_ba: multiplexer (select) and saturating subtraction on Boolean-array shares of width {3,5,8,16,20,32,64} (all operand pairs for sat_sub at width <= 5; equal / neighbouring operands biased), 1..700 records. "
                 "c07_conv: convert_to_fp25519::<_,256,NP> for NP in {1,16}, 1..3 chunks of 256 values of width {1,8,32,64,100,127}, proof chunk {1,2}. "
+                "c07_agg: aggregate_values called directly on 1..70 rows of {1,3,5,8}-bit values x {8,32,256} buckets x {8,16,32}-bit saturating output, as one call or as a history of calls over chunks of any size >= 1 that share the per-layer record counters. "
                 "c04_mac (fault-free): field multiplication over Fp31/Fp32BitPrime/Fp25519, 16-lane Fp25519 and the pseudonym function g^(1/(k+x))",
         "scenarios": [
             {"name": "c07_circ", "quick": 1600, "thorough": 80000, "offset": 1, "chunk": 25, "run_timeout": 120},
             {"name": "c07_ba", "quick": 1200, "thorough": 60000, "offset": 2, "chunk": 40, "run_timeout": 120},
             {"name": "c07_conv", "quick": 96, "thorough": 4000, "offset": 3, "chunk": 3, "run_timeout": 300},
+            {"name": "c07_agg", "quick": 1500, "thorough": 60000, "offset": 5, "chunk": 50, "run_timeout": 120},
             {"name": "c04_mac", "quick": 600, "thorough": 30000, "offset": 4, "chunk": 50, "run_timeout": 120},
         ],
-        "expected_probes": ["operand_pairs", "exhaustive_small_width", "unequal_widths", "proof_batches", "ba_select", "ba_sat_sub", "ba_exhaustive", "conv_np1", "conv_np16", "prf_records", "vec16_records"],
+        "expected_probes": ["operand_pairs", "exhaustive_small_width", "unequal_widths", "proof_batches", "ba_select", "ba_sat_sub", "ba_exhaustive", "conv_np1", "conv_np16", "prf_records", "vec16_records", "agg_rows", "agg_calls_sharing_counters", "agg_odd_chunk_then_another", "agg_saturated_buckets"],
         "components_real": ["protocol::basics::{mul::{semi_honest, dzkp_malicious, malicious}, if_else::select}, protocol::boolean::or, ipa_prf::boolean_ops::{addition_sequential, comparison_and_subtraction_sequential, share_conversion_aby}, ipa_prf::prf_eval, DZKP and MAC validators, Gateway, PRSS, in-memory transport"],
     },
     "C04": {
@@ -317,7 +320,7 @@ MANIFEST_TEXT = {
     "C07": {
         "text": "Seeded exploration of the real interactive Boolean building blocks on three simulated helpers in semi-honest and DZKP-malicious mode, with record- and bit-parallelism scheduled by the seed. Oracle: big-integer plaintext function of the operands (incl. carry, saturation, truncation/zero-extension of the second operand) and consistency of the three output sharings. Widths <= 4 are enumerated exhaustively; larger widths use boundary and random operands. Sampling beyond that.",
         "design_ref": "DESIGN.md section 4, C07",
-        "note": "covers multiplication (AND; field multiplication in MAC mode), multiplexer, OR, XOR, add-with-carry, saturating add, subtract, saturating subtract, both comparisons, share conversion to Fp25519 and the pseudonym function; bucket aggregation is exercised end-to-end by the C01 hybrid scenarios (same plaintext oracle) rather than here; boolean_ops::multiplication::integer_mul is private dead code (#[allow(dead_code)]) and is not reached",
+        "note": "covers multiplication (AND; field multiplication in MAC mode), multiplexer, OR, XOR, add-with-carry, saturating add, subtract, saturating subtract, both comparisons, share conversion to Fp25519 and the pseudonym function; bucket aggregation (directly, incl. multi-call histories, and end-to-end in the C01 scenarios); boolean_ops::multiplication::integer_mul is private dead code (#[allow(dead_code)]) and is not reached",
         "technique": "deterministic simulation: seeded schedule + operand search over the real circuits with a big-integer reference",
     },
     "C05": {
